@@ -413,6 +413,64 @@ pub mod simstd {
         iter, marker, mem, num, ops, option, path, rc, result, slice, str, string, sync, time, vec,
     };
 
+    /// Just enough of `std::os::fd` to duplicate a standard descriptor into a `File`
+    /// (`File::from(stdout().as_fd().try_clone_to_owned()?)`, `File::from_raw_fd(1)`).
+    pub mod os {
+        pub mod fd {
+            pub type RawFd = i32;
+            pub struct BorrowedFd(pub(crate) i32);
+            pub struct OwnedFd(pub(crate) i32);
+            pub trait AsFd {
+                fn as_fd(&self) -> BorrowedFd;
+            }
+            pub trait AsRawFd {
+                fn as_raw_fd(&self) -> RawFd;
+            }
+            pub trait FromRawFd {
+                /// # Safety
+                /// mirrors std's signature
+                unsafe fn from_raw_fd(fd: RawFd) -> Self;
+            }
+            impl BorrowedFd {
+                pub fn try_clone_to_owned(&self) -> ::std::io::Result<OwnedFd> {
+                    Ok(OwnedFd(self.0))
+                }
+            }
+            macro_rules! std_fd {
+                ($t:ty, $n:expr) => {
+                    impl AsFd for $t {
+                        fn as_fd(&self) -> BorrowedFd {
+                            BorrowedFd($n)
+                        }
+                    }
+                    impl AsRawFd for $t {
+                        fn as_raw_fd(&self) -> RawFd {
+                            $n
+                        }
+                    }
+                };
+            }
+            std_fd!(crate::world::simstd::io::Stdin, 0);
+            std_fd!(crate::world::simstd::io::Stdout, 1);
+            std_fd!(crate::world::simstd::io::Stderr, 2);
+            impl From<OwnedFd> for crate::world::simstd::fs::File {
+                fn from(fd: OwnedFd) -> Self {
+                    crate::world::simstd::fs::file_from_std_fd(fd.0)
+                }
+            }
+            impl FromRawFd for crate::world::simstd::fs::File {
+                unsafe fn from_raw_fd(fd: RawFd) -> Self {
+                    crate::world::simstd::fs::file_from_std_fd(fd)
+                }
+            }
+        }
+        pub mod unix {
+            pub mod io {
+                pub use super::super::fd::*;
+            }
+        }
+    }
+
     pub mod process {
         /// Stand-in for std::process::ExitCode whose value the simulator can read.
         #[derive(Clone, Copy, Debug, PartialEq, Eq)]
@@ -629,7 +687,15 @@ pub mod simstd {
             }
         }
 
+        /// a `File` made from a duplicated standard descriptor (see `simstd::os::fd`)
+        pub(crate) fn file_from_std_fd(fd: i32) -> File {
+            File { path: format!("\0fd{}", fd), pos: 0, readable: fd == 0, writable: fd != 0, append: false }
+        }
+
         fn do_read(f: &mut File, buf: &mut [u8]) -> io::Result<usize> {
+            if f.path == "\0fd0" {
+                return crate::world::simstd::io::raw_stdin_read(buf);
+            }
             if !f.readable {
                 return Err(io::Error::from_raw_os_error(libc::EBADF));
             }
@@ -671,6 +737,14 @@ pub mod simstd {
         }
 
         fn do_write(f: &mut File, buf: &[u8]) -> io::Result<usize> {
+            if f.path == "\0fd1" {
+                // the descriptor under stdout, behind the back of its line buffer
+                return crate::world::simstd::io::raw_stdout_write(buf);
+            }
+            if f.path == "\0fd2" {
+                use io::Write;
+                return crate::world::simstd::io::stderr().write(buf);
+            }
             if !f.writable {
                 return Err(io::Error::from_raw_os_error(libc::EBADF));
             }
@@ -1010,6 +1084,13 @@ pub mod simstd {
             pub fn lines(self) -> Lines<BufReader<StdinLock>> {
                 self.lock().lines()
             }
+        }
+
+        pub(crate) fn raw_stdout_write(buf: &[u8]) -> Result<usize> {
+            stdout_write(buf)
+        }
+        pub(crate) fn raw_stdin_read(buf: &mut [u8]) -> Result<usize> {
+            stdin_read(buf)
         }
 
         fn stdout_write(buf: &[u8]) -> Result<usize> {
